@@ -111,14 +111,33 @@ def _port_order(leaf):
         return [byname['sel'], byname['sel0'], byname['sel1']]
     if k == 'AddCarryIn':
         return [byname['a'], byname['b'], byname['ci']]
+    if k == 'UARTSerializer':
+        return [byname['valid'], byname['v'], byname['uart_clock_posedge']]
+    if k == 'UARTDeserializer':
+        return [byname['rx'], byname['ready'], byname['rx_sample']]
+    if k == 'ClockSyncFSM':
+        return [byname['start'], byname['stop']]
     return [p.wire for p in leaf.inPorts]
+
+
+def _out_order(leaf):
+    k = type(leaf).__name__
+    byname = {p.name: p.wire for p in leaf.outPorts}
+    if k == 'UARTSerializer':
+        return [byname['ready'], byname['tx']]
+    if k == 'UARTDeserializer':
+        return [byname['valid'], byname['v'], byname['clock_desync']]
+    if k == 'ClockSyncFSM':
+        return [byname['sync'], byname['active']]
+    return [p.wire for p in leaf.outPorts]
 
 
 KNOWN_KINDS = {"And2", "Or2", "Not", "Buf", "ZeroExtend", "Bit", "BitsLSBF", "BitsMSBF",
                "Range", "ConcatenateMSBF", "ConcatenateLSBF", "Repeat", "Constant", "Mux2",
                "ShiftLeftConstant", "ShiftRightConstant", "RotateLeftConstant",
                "RotateRightConstant", "AddCarryIn", "Sub", "Mul", "SignedMul", "Div", "Mod",
-               "SignExtend", "GatedClock", "Reg", "SynchronousMemory", "Sequence"}
+               "SignExtend", "GatedClock", "Reg", "SynchronousMemory", "Sequence",
+               "UARTSerializer", "UARTDeserializer", "ClockSyncFSM"}
 
 
 def all_wires(hw):
@@ -161,10 +180,7 @@ def extract(hw, leaf_order=None):
                 dom_ids[id(drv)] = len(doms) + 1
                 doms.append({'en': ids[id(drv.enable)] if drv.enable is not None else 0})
             d = dom_ids[id(drv)]
-        if k == 'BitsMSBF':
-            outs = [ids[id(p.wire)] for p in lf.outPorts]
-        else:
-            outs = [ids[id(p.wire)] for p in lf.outPorts]
+        outs = [ids[id(w)] for w in _out_order(lf)]
         out.append({'kind': k, 'ins': [ids[id(w)] for w in _port_order(lf)], 'outs': outs,
                     'p': _params(lf), 'dom': d, 'path': lf.getFullPath()})
     return {'width': [w.getWidth() for w in order], 'leaves': out, 'doms': doms}, order
